@@ -58,6 +58,16 @@ CLAIMED['C19'] = dict(
    text="Effect model of what write() does to live objects (temporary root, metadata names, list iteration) on the C12 forest model; theorems: the public view of every object is unchanged by saving an unrooted node or a list, on success and on failure, and the node is still unrooted. Oracle: before/after snapshots (shape, names, roots, payload tokens, metadata keys/names/identities, list contents) around every save incl. failing ones, re-adding unrooted nodes to a tree, twin saves to two fresh paths compared.",
    note=TB + TREE + "PARTIAL: the effect model is tied to the code by the live-object snapshots (oracle) rather than by a Coq-evaluated correspondence; repeatability rests on the writer model being a function plus the twin-save oracle.",
    technique="Coq proof over an effect model + live-object snapshot oracle + vm_compute correspondence of file contents", ref="5 C19")
+
+ARRM = ("Executable model of the calibration logic of classes/array.py (coq/Model/Arr.v): argument padding/truncation, _unpack_dim with numpy's start + step*arange(n) written out in binary64 (PrimFloat, bit-exact), _dim_is_linear, to_h5/_get_constructor_args for the dim datasets and labels, setters, stack algebra, labelled slicing; tied to /repo by evaluating every scenario in Coq against the live Array objects and the raw files, floats compared bit for bit. ")
+CLAIMED['C14'] = dict(
+   text="Invariant proofs: construction yields exactly one dim vector / unit / name per (non-label) axis with each dim vector of the axis length, for every form of the arguments, and set_dim / set_dim_units / set_dim_name keep it (so any setter sequence does); every expansion has the axis length for ALL ints and binary64 values (no arange off-by-one); omitted entry = 0..N-1; integer number/pair = the exact arithmetic ramp; full vector kept as given; supplied units/names kept, defaults pixels/unknown/dim<i>; stack depth/rank/shape; indexing by the i-th label returns slice i with the same calibrations (distinct labels; duplicate labels refuted by witness = known finding).",
+   note=TB + ARRM + "PARTIAL for floats: length and the stated binary64 formula are proved; equality with the exact rational ramp only for integers (oracle checks floats within 2^-49 relative). Print Assumptions lists only kernel primitives of PrimFloat/Uint63 (native floats), no declared axiom.",
+   technique="Coq invariant proof + bit-exact PrimFloat model validated by vm_compute correspondence", ref="5 C14")
+CLAIMED['C02'] = dict(
+   text="Proved for all ints and all binary64 values: the calibration part of the Array codec round-trips -- shape, depth, units, names and labels identical, every dim vector elementwise equal (a vector passing the exact linearity test is stored as two entries and re-expands to equal values; any other is stored in full and returned as is); what is stored per axis has 2 or N entries; every constructed Array satisfies the hypotheses. Data/dtype/shape/units/name and label-addressed slices across 18 dtypes x 6 memory layouts: correspondence (stored dim datasets bit-exact) + oracle on the read-back object.",
+   note=TB + ARRM + "PARTIAL: bulk data preservation (h5py) is observed, not modelled. Extents >= 1.",
+   technique="Coq proof (codec round-trip by construction of the linearity test) + bit-exact correspondence with files", ref="5 C02")
 PENDING = {}
 props = [json.loads(l) for l in open(os.path.join(V, 'properties.jsonl'))]
 checks, na = [], []
